@@ -20,6 +20,8 @@ import signal
 import subprocess
 import sys
 import time
+if hasattr(sys, "set_int_max_str_digits"):
+    sys.set_int_max_str_digits(0)      # factorials and number compression print integers of many thousand digits
 
 HERE = os.path.dirname(os.path.abspath(__file__))
 VERIF = os.path.dirname(HERE)
